@@ -721,8 +721,9 @@ def _true(ctx):
     table = {"true_strain": "np.log(1 + tech_strain)", "true_stress": "tech_stress * (1 + tech_strain)",
              "true_fracture_strain": "np.log(1 / (1 - reduction_area_fracture))",
              "true_fracture_stress": "fracture_force / (initial_cross_section * (1 - reduction_area_fracture))"}
+    from ..inline import inlined as _inl
     for name, ref in table.items():
-        f = prog.func(T + name)
+        f = _inl(prog, prog.func(T + name))            # shared sub-expressions may live in private module-level helpers
         r = [s for s in f.node.body if isinstance(s, ast.Return)][-1]
         # evaluate the body in order: locals and re-assigned parameters are substituted by their normal forms
         env = {q: RF.sym(q) for q in f.params}
